@@ -186,7 +186,7 @@ fn slerp<S: Lift>(t: &mut Tape, cx: &mut Cx) -> CaseResult {
     let (va, vb) = (vk::v3(&a), vk::v3(&b));
     let lmax = la.max(lb) * 1.5;
     // acos and the division by sin(alpha) each amplify rounding by 1/sin(alpha)
-    let kk = 64.0 / (al.sin() * al.sin());
+    let kk = 16.0 / (al.sin() * al.sin());
     macro_rules! vec_near {
         ($got:expr, $want:expr, $k:expr, $($arg:tt)*) => {{
             let g = $got;
